@@ -423,6 +423,13 @@ func (a *Authority) authorizeSSHRevoke(ctx context.Context, token string) error 
 // certificate in the x5cInsecure header.
 func (a *Authority) AuthorizeRenewToken(_ context.Context, ott string) (*x509.Certificate, error) {
 	var claims jose.Claims
+	// jose.ParseX5cInsecure indexes the first certificate of the x5cInsecure
+	// header without checking that there is one.
+	if tok, err := jose.ParseSigned(ott); err == nil {
+		if certs, err := jose.GetX5cInsecureHeader(tok); err == nil && len(certs) == 0 {
+			return nil, errs.Unauthorized("error validating renew token: x5cInsecure header is empty")
+		}
+	}
 	jwt, chain, err := jose.ParseX5cInsecure(ott, a.rootX509Certs)
 	if err != nil {
 		return nil, errs.UnauthorizedErr(err, errs.WithMessage("error validating renew token"))
